@@ -18,6 +18,13 @@ CLAIMS = {
         "note": "R-FEEL (lib/rfeel.py) is trusted; contested constructs (singleton filter results, non-boolean conditions, incomparable equality inside lists, inexact powers) are counted as undecided, never as violations. Parsing defects of operator nesting are left to C06 (the generator keeps boolean operators out of `between` operands and range end points).",
         "design_ref": "DESIGN.md §3 C01, §2 R-FEEL",
     },
+    "C02": {
+        "category": "exploration",
+        "technique": "reference-model oracle (CPython decimal as decimal128 + exact rational arithmetic) over observed operations, replayed under AddressSanitizer with the decNumber C sources instrumented",
+        "text": "Operand tuples from every sign / coefficient-length / exponent-band / shape class, related operands and constructed exact ties are executed for all 21 operations both directly on FeelNumber and as FEEL expressions; each result is compared with the correctly rounded decimal128 result (2 ulp for exp, log, inexact powers), non-finite results and missing nulls are flagged; the workload is replayed on an ASan build (C writes + all Rust accesses instrumented) and, in the thorough tier, a slice under valgrind memcheck.",
+        "note": "Trusts libmpdec configured as decimal128 and Python Fraction. decNumber's deliberate <=3-byte over-reads of its own stack buffers are not instrumented (documented in lib/runner.py and DESIGN.md). ASan-clean is not memory safety.",
+        "design_ref": "DESIGN.md §3 C02",
+    },
     "C09": {
         "category": "exploration",
         "technique": "runtime law monitor over observed evaluations (exhaustive value alphabet + seeded random values)",
